@@ -106,11 +106,10 @@ impl Merge for Stats {
         self.clock_dependent_ops += o.clock_dependent_ops;
         self.distinct.extend(o.distinct);
         self.batch_hash = self.batch_hash.wrapping_add(o.batch_hash);
-        for s in o.samples {
-            if self.samples.len() < 6 {
-                self.samples.push(s);
-            }
-        }
+        self.samples.extend(o.samples);
+        // keyed by run index: the lowest runs win whatever the worker count
+        self.samples.sort_by_key(|s| s["run"].as_u64().unwrap_or(u64::MAX));
+        self.samples.truncate(4);
         for (k, v) in o.by_type {
             *self.by_type.entry(k).or_default() += v;
         }
@@ -411,6 +410,8 @@ pub struct ExecOpts {
     pub collect_samples: bool,
     /// sweep mode: no per-op description in the log, no adversarial re-execution
     pub lean: bool,
+    /// run index (for sample selection only)
+    pub run: u64,
 }
 
 /// Executes one operation and checks it. Returns a violation, if any.
@@ -537,12 +538,13 @@ pub fn exec_op(
         h.write_u64(readings.len().min(3) as u64);
         h.write(&[matches!(out, Outcome::Ok(_)) as u8]);
         stats.distinct.insert(h.finish());
-        if opts.collect_samples && !opts.lean && stats.samples.len() < 3 {
+        if opts.collect_samples && !opts.lean && stats.samples.iter().all(|x| x["run"].as_u64() != Some(opts.run)) {
             let local_desc = {
                 let l = model::local_fields(&probe_reading);
                 format!("{:04}-{:02}-{:02} {:02}:{:02}:{:02}", l.y, l.m, l.d, l.h, l.mi, l.s)
             };
             stats.samples.push(serde_json::json!({
+                "run": opts.run,
                 "op": op.describe(),
                 "readings": readings.iter().map(|r| serde_json::json!({"utc_secs": r.secs, "nanos": r.nanos, "offset_secs": r.offset})).collect::<Vec<_>>(),
                 "local_date_of_first_reading": local_desc,
